@@ -309,6 +309,8 @@ class ForwardScheduler(IScheduler):
                     )
                     if clock_matters:
                         _task.end = max(_task.end, datetime.now())
+                    # a start fixed by the user may lie later in the day than the share of capacity used
+                    _task.end = max(_task.end, _task.start)
                 else:
                     _task.end = max([t.end for t in _task.children if t.end is not None])
 
